@@ -15,7 +15,7 @@ MINE = {"model:bind", "model:obj", "model:meta", "other-pid-references-changed",
 LONG = "p" * 4999
 SETS_QUICK = [
     (["../a", "a/b", "a"], [None, "../f", "f/g"]),
-    (["-rf", "*", ".hidden"], [None, "-x", "?"]),
+    (["-rf", "*", ".hidden"], [None, "-x", "-x\n"]),
     ([LONG + "q", LONG, "\U0001F600é"], [None, "中" * 3]),
     (["x", "X", "xx"], [None, "ns2", "NS"]),
 ]
